@@ -65,3 +65,120 @@ theorem plan_cases (cfg : Config) (s : FState) (b : Blk) (hni : s.includeInit = 
           exact Or.inr ⟨by simpa using h3, by simpa using h1, u, r, j, rfl, rfl⟩
 
 end BstreamVerif.Forkable
+
+namespace BstreamVerif.Forkable
+open BstreamVerif BstreamVerif.ForkDB
+
+theorem computeLongestChain_cases (cfg : Config) (s : FState) (b : Blk) :
+    (∃ c cs, s.cache = some (c :: cs) ∧ b.parent = (((c :: cs).getLast?.map (fun (e : Entry) => e.blk.id)).getD "") ∧
+      s.db.libRef.id = c.blk.parent ∧ computeLongestChain cfg s b = some ((c :: cs) ++ [⟨b, false⟩])) ∨
+    computeLongestChain cfg s b = (s.db.reversibleSegment cfg.fsb b.ref).1 := by
+  unfold computeLongestChain
+  cases hcache : s.cache with
+  | none => right; simp
+  | some l =>
+    cases l with
+    | nil => right; simp
+    | cons c cs =>
+      simp only
+      by_cases hk : (b.parent == (((c :: cs).getLast?.map (fun (e : Entry) => e.blk.id)).getD "") && s.db.libRef.id == c.blk.parent) = true
+      · left
+        rw [if_pos hk]
+        simp only [Bool.and_eq_true, beq_iff_eq] at hk
+        exact ⟨c, cs, rfl, hk.1, hk.2, rfl⟩
+      · right
+        rw [if_neg hk]
+
+theorem computeLongestChain_last (cfg : Config) (s : FState) (b : Blk) (lc : List Entry)
+    (h : computeLongestChain cfg s b = some lc) (hne : lc ≠ []) : (lc.getLast?.map (·.blk.ref)) = some b.ref := by
+  rcases computeLongestChain_cases cfg s b with ⟨c, cs, _, _, _, hres⟩ | hres
+  · rw [hres] at h
+    injection h with h
+    subst h
+    rw [show (c :: cs ++ [(⟨b, false⟩ : Entry)]) = (c :: cs) ++ [⟨b, false⟩] from rfl, List.getLast?_append]
+    simp
+  · rw [hres] at h
+    cases hr : s.db.reversibleSegment cfg.fsb b.ref with
+    | mk l r =>
+      rw [hr] at h
+      simp only at h
+      subst h
+      exact reversibleSegment_last _ _ _ _ _ hr hne
+
+theorem planLinked_switch_chain (cfg : Config) (s1 : FState) (b : Blk) (trig : Bool) (u r : List Entry) (j : Option Ref)
+    (s3 : FState) (lc u' r' : List Entry) (j' : Option Ref) (fi : Option Entry)
+    (h : planLinked cfg s1 b trig u r j = .switch s3 lc u' r' j' fi) :
+    ∃ s2, computeLongestChain cfg s2 b = some lc ∧ lc ≠ [] := by
+  unfold planLinked at h
+  dsimp only at h
+  generalize (if s1.db.hasLIB = true then s1 else { s1 with db := s1.db.setLIB cfg.fsb b.ref b.lib }) = s2 at h
+  by_cases c1 : (!s1.db.hasLIB && s2.db.hasLIB && s2.db.libRef.num == b.num) = true
+  · rw [if_pos c1] at h; cases h
+  rw [if_neg c1] at h
+  by_cases c2 : (!s1.db.hasLIB && !s2.db.hasLIB && cfg.hold) = true
+  · rw [if_pos c2] at h; cases h
+  rw [if_neg c2] at h
+  cases hc : computeLongestChain cfg s2 b with
+  | none => rw [hc] at h; cases h
+  | some l =>
+    cases l with
+    | nil => rw [hc] at h; cases h
+    | cons c cs =>
+      rw [hc] at h
+      dsimp only at h
+      by_cases c3 : (!trig) = true
+      · rw [if_pos c3] at h; cases h
+      · rw [if_neg c3] at h
+        injection h with _ h2
+        exact ⟨s2, by rw [← h2]; exact hc, by rw [← h2]; simp⟩
+
+theorem plan_switch_chain (cfg : Config) (s : FState) (b : Blk) (s3 : FState) (lc u r : List Entry) (j : Option Ref)
+    (fi : Option Entry) (h : plan cfg s b = .switch s3 lc u r j fi) :
+    (lc.getLast?.map (·.blk.ref)).getD Ref.empty = b.ref := by
+  unfold plan at h
+  by_cases c1 : (b.id == b.parent) = true
+  · rw [if_pos c1] at h; cases h
+  rw [if_neg c1] at h
+  by_cases c2 : (decide (b.num < s.db.libRef.num) && s.lastSent.isSome) = true
+  · rw [if_pos c2] at h; cases h
+  rw [if_neg c2] at h
+  dsimp only at h
+  by_cases c3 : (s.includeInit && s.lastSent.isNone && b.id == s.db.libRef.id) = true
+  · rw [if_pos c3] at h; cases h
+  rw [if_neg c3] at h
+  cases hsw : switchSegments cfg s b (triggers cfg s b) with
+  | none => rw [hsw] at h; cases h
+  | some x =>
+    obtain ⟨u0, r0, j0⟩ := x
+    rw [hsw] at h
+    dsimp only at h
+    by_cases c4 : (s.db.addLink b).2 = true
+    · rw [if_pos c4] at h; cases h
+    · rw [if_neg c4] at h
+      obtain ⟨s2, hc, hne⟩ := planLinked_switch_chain _ _ _ _ _ _ _ _ _ _ _ _ _ h
+      rw [computeLongestChain_last cfg s2 b lc hc hne]; rfl
+
+/-- **every event names the incoming block as the head of its cursor** (C04), for every state, block and handler
+    failure point -/
+theorem processBlock_head (cfg : Config) (s : FState) (b : Blk) (f : Option Nat) :
+    ∀ e ∈ (processBlock cfg s b f).2.1, e.head = b.ref := by
+  unfold processBlock
+  cases hp : plan cfg s b with
+  | done s' r => simp
+  | initial s' => exact initialAcc_allHead cfg s' b f
+  | switch s3 lc u r j fi =>
+    simp only [advanceLIB, finish]
+    apply advanceAcc_allHead
+    unfold emitSwitch processNew
+    rw [plan_switch_chain cfg s b s3 lc u r j fi hp]
+    apply foldl_newStep_allHead
+    have h0 : AllHead b.ref ⟨s3, [], f, false⟩ := by intro e he; simp at he
+    have h1 : AllHead b.ref (if cfg.matches .undo then phase ⟨s3, [], f, false⟩ (mkEvents .undo u b.ref (cursorLIB s3) j) else ⟨s3, [], f, false⟩) := by
+      split
+      · exact phase_allHead _ _ _ h0 (mkEvents_head _ _ _ _ _)
+      · exact h0
+    split
+    · exact phase_allHead _ _ _ h1 (mkEvents_head _ _ _ _ _)
+    · exact h1
+
+end BstreamVerif.Forkable
